@@ -12,8 +12,21 @@ import Duckling.Lemmas.EvalNoCrash
 -/
 namespace Duckling
 
+/-- every command line of the forest, at every depth, satisfies `q` — `q` sees the text of the line and whether a non-empty
+    block follows it (what `Stack.run` hands to `isThisCommand`) -/
+def allCmdsL (q : Str → Bool → Bool) : List Node → Bool
+  | [] => true
+  | .line l :: rest => q l.content (hasBlockOf (nextBlock rest)) && allCmdsL q rest
+  | .block b :: rest => allCmdsL q b && allCmdsL q rest
+
+@[simp] theorem allCmdsL_nil (q : Str → Bool → Bool) : allCmdsL q [] = true := by simp [allCmdsL]
+@[simp] theorem allCmdsL_line (q : Str → Bool → Bool) (l : PreLine) (rest : List Node) :
+    allCmdsL q (.line l :: rest) = (q l.content (hasBlockOf (nextBlock rest)) && allCmdsL q rest) := by simp [allCmdsL]
+@[simp] theorem allCmdsL_block (q : Str → Bool → Bool) (b rest : List Node) :
+    allCmdsL q (.block b :: rest) = (allCmdsL q b && allCmdsL q rest) := by simp [allCmdsL]
+
 mutual
-/-- every command line of the node, at every depth, satisfies `q` -/
+/-- the special case of a predicate on the text alone -/
 def Node.allLines (q : Str → Bool) : Node → Bool
   | .line l => q l.content
   | .block ns => allLinesL q ns
@@ -54,19 +67,19 @@ instance : Carries Unit := ⟨fun _ => [], fun _ => []⟩
 instance : Carries Bool := ⟨fun _ => [], fun _ => []⟩
 
 /-- all the function bodies in the state satisfy the line invariant -/
-def StOk (q : Str → Bool) (st : St) : Prop := ∀ c ∈ st.codes, allLinesL q c = true
+def StOk (q : Str → Bool → Bool) (st : St) : Prop := ∀ c ∈ st.codes, allCmdsL q c = true
 
 /-- every readable file parses to code satisfying the line invariant -/
-def FSOk (q : Str → Bool) (fs : FS) : Prop :=
-  ∀ p text nodes, fs.read p = some text → parseLines (splitLines text) = .ok nodes → allLinesL q nodes = true
+def FSOk (q : Str → Bool → Bool) (fs : FS) : Prop :=
+  ∀ p text nodes, fs.read p = some text → parseLines (splitLines text) = .ok nodes → allCmdsL q nodes = true
 
 /-- `r` never raises the blank-line IndexError; what it returns satisfies the invariants -/
-structure HG (q : Str → Bool) (P : Str → Prop) {α : Type} [Carries α] (r : R α) : Prop where
+structure HG (q : Str → Bool → Bool) (P : Str → Prop) {α : Type} [Carries α] (r : R α) : Prop where
   ni : ∀ x, r = .crash x → x ≠ "IndexError"
-  codes : ∀ a, r = .ok a → ∀ c ∈ Carries.codes a, allLinesL q c = true
+  codes : ∀ a, r = .ok a → ∀ c ∈ Carries.codes a, allCmdsL q c = true
   outs : ∀ a, r = .ok a → ∀ l ∈ Carries.outs a, P l
 
-variable {q : Str → Bool} {P : Str → Prop} {α β : Type} [Carries α] [Carries β]
+variable {q : Str → Bool → Bool} {P : Str → Prop} {α β : Type} [Carries α] [Carries β]
 
 theorem HG.err (e : ErrInfo) : HG q P (.err e : R α) :=
   ⟨fun _ h => (by cases h), fun _ h => (by cases h), fun _ h => (by cases h)⟩
@@ -77,7 +90,7 @@ theorem HG.crashLit (x : String) (hx : x ≠ "IndexError") : HG q P (.crash x : 
 theorem HG.raise (ctx : Ctx) (pos : Pos) (st : St) (k : EK) : HG q P (Duckling.raise ctx pos st k : R α) := HG.err _
 theorem HG.overflow (ctx : Ctx) (pos : Pos) (st : St) : HG q P (overflowErr ctx pos st : R α) := HG.err _
 
-theorem HG.okOf (a : α) (hc : ∀ c ∈ Carries.codes a, allLinesL q c = true) (ho : ∀ l ∈ Carries.outs a, P l) :
+theorem HG.okOf (a : α) (hc : ∀ c ∈ Carries.codes a, allCmdsL q c = true) (ho : ∀ l ∈ Carries.outs a, P l) :
     HG q P (.ok a : R α) :=
   ⟨fun _ h => (by cases h), fun _ h => (by cases h; exact hc), fun _ h => (by cases h; exact ho)⟩
 
@@ -85,7 +98,7 @@ theorem HG.okPlain (a : α) (hc : Carries.codes a = []) (ho : Carries.outs a = [
   HG.okOf a (by rw [hc]; intro c h; cases h) (by rw [ho]; intro l h; cases h)
 
 theorem HG.bind {x : R α} {f : α → R β} (hx : HG q P x)
-    (hf : ∀ a, x = .ok a → (∀ c ∈ Carries.codes a, allLinesL q c = true) → (∀ l ∈ Carries.outs a, P l) → HG q P (f a)) :
+    (hf : ∀ a, x = .ok a → (∀ c ∈ Carries.codes a, allCmdsL q c = true) → (∀ l ∈ Carries.outs a, P l) → HG q P (f a)) :
     HG q P (x >>= f) := by
   cases x with
   | ok a => exact hf a rfl (hx.codes a rfl) (hx.outs a rfl)
@@ -105,11 +118,11 @@ theorem HG.evalIn (ctx : Ctx) (pos : Pos) (st : St) (s : Str) : HG q P (Duckling
   HG.liftO _ _ _ _ (fun x => evalSafe _ _ x) (fun _ => rfl) (fun _ => rfl)
 
 /-- a child executor that keeps the invariants -/
-def ChildHG (q : Str → Bool) (P : Str → Prop) (c : Option ChildFn) : Prop :=
-  ∀ run, c = some run → ∀ code ctx st, allLinesL q code = true → StOk q st → FSOk q ctx.fs → HG q P (run code ctx st)
+def ChildHG (q : Str → Bool → Bool) (P : Str → Prop) (c : Option ChildFn) : Prop :=
+  ∀ run, c = some run → ∀ code ctx st, allCmdsL q code = true → StOk q st → FSOk q ctx.fs → HG q P (run code ctx st)
 
 theorem HG.runChild {c : Option ChildFn} (hc : ChildHG q P c) (ctx : Ctx) (pos : Pos) (st : St) (code : List Node)
-    (file : Option Path) (cst : St) (hcode : allLinesL q code = true) (hcst : StOk q cst) (hfs : FSOk q ctx.fs) :
+    (file : Option Path) (cst : St) (hcode : allCmdsL q code = true) (hcst : StOk q cst) (hfs : FSOk q ctx.fs) :
     HG q P (Duckling.runChild c ctx pos st code file cst) := by
   cases c with
   | none => exact HG.overflow _ _ _
@@ -166,12 +179,12 @@ theorem mem_of_assocGet {β : Type} (l : List (Str × β)) (k : Str) (v : β) (h
     · cases h; exact ⟨k', List.mem_cons_self⟩
     · obtain ⟨k2, h2⟩ := ih h; exact ⟨k2, List.mem_cons_of_mem _ h2⟩
 
-variable {q : Str → Bool}
+variable {q : Str → Bool → Bool}
 
 theorem StOk.of_funcs_eq {st st' : St} (h : st'.env.funcs = st.env.funcs) (hs : StOk q st) : StOk q st' := by
   intro c hc; apply hs; simpa [St.codes, h] using hc
 
-theorem StOk.mem {st : St} (hs : StOk q st) {k : Str} {f : Func} (h : (k, f) ∈ st.env.funcs) : allLinesL q f.code = true :=
+theorem StOk.mem {st : St} (hs : StOk q st) {k : Str} {f : Func} (h : (k, f) ∈ st.env.funcs) : allCmdsL q f.code = true :=
   hs _ (by simp only [St.codes, List.mem_map]; exact ⟨(k, f), h, rfl⟩)
 
 theorem StOk.enterSt {st : St} (hs : StOk q st) : StOk q (enterSt st) := StOk.of_funcs_eq rfl hs
@@ -187,7 +200,7 @@ theorem StOk.leave (par : Bool) {p c : St} (hp : StOk q p) (hc : StOk q c) : StO
     · exact hp.mem h
     · exact hc.mem h
 
-theorem StOk.setFunc {st : St} (hs : StOk q st) (name : Str) (f : Func) (hf : allLinesL q f.code = true) :
+theorem StOk.setFunc {st : St} (hs : StOk q st) (name : Str) (f : Func) (hf : allCmdsL q f.code = true) :
     StOk q { st with env := { st.env with funcs := assocSet st.env.funcs name f } } := by
   intro code hcode
   simp only [St.codes, List.mem_map] at hcode
@@ -220,7 +233,7 @@ end Duckling
 
 namespace Duckling
 
-variable {q : Str → Bool} {P : Str → Prop} {α β : Type} [Carries α] [Carries β]
+variable {q : Str → Bool → Bool} {P : Str → Prop} {α β : Type} [Carries α] [Carries β]
 
 /-- the code part and the output part can be shown separately -/
 theorem HG.withOuts {r : R α} (h : HG q (fun _ => True) r) (ho : ∀ a, r = .ok a → ∀ l ∈ Carries.outs a, P l) : HG q P r :=
@@ -285,7 +298,7 @@ theorem HG.runRun {c : Option ChildFn} (hc : ChildHG q P c) (ctx : Ctx) (pos : P
   unfold Duckling.runRun
   apply HG.bind (HG.runPre _ _ _ _ hs)
   intro p _ hcodes _
-  have hcode : allLinesL q p.1.code = true := hcodes _ (by simp [Carries.codes])
+  have hcode : allCmdsL q p.1.code = true := hcodes _ (by simp [Carries.codes])
   have hst : StOk q p.2 := fun c hc => hcodes c (by simp only [Carries.codes, List.mem_cons]; exact Or.inr hc)
   apply HG.bind (HG.runChild hc _ _ _ _ _ _ hcode hst hfs)
   intro r _ hrc hro
@@ -328,7 +341,7 @@ theorem HG.runStart {c : Option ChildFn} (hc : ChildHG q P c) (ctx : Ctx) (pos :
   unfold Duckling.runStart
   apply HG.bind (HG.loadImport _ _ _ _ hfs)
   intro p _ hcodes _
-  have hcode : allLinesL q p.2 = true := hcodes _ (by simp [Carries.codes])
+  have hcode : allCmdsL q p.2 = true := hcodes _ (by simp [Carries.codes])
   apply HG.bind (HG.runChild hc _ _ _ _ _ _ hcode hs.enterSt hfs)
   intro r _ hrc hro
   exact HG.startPost _ _ _ hs hrc hro
@@ -337,7 +350,7 @@ end Duckling
 
 namespace Duckling
 
-variable {q : Str → Bool} {P : Str → Prop} {α β : Type} [Carries α] [Carries β]
+variable {q : Str → Bool → Bool} {P : Str → Prop} {α β : Type} [Carries α] [Carries β]
 
 theorem HG.defaultEmit (name : Str) (a : Option Arg) : HG q P (Duckling.defaultEmit name a) := by
   unfold Duckling.defaultEmit
@@ -417,42 +430,46 @@ theorem HG.runCompileLocal (ctx : Ctx) (c : ClsDesc) (name : Str) (line : Nat) (
 
 theorem HG.runCompile {c : Option ChildFn} (hc : ChildHG q P c) (ctx : Ctx) (cl : ClsDesc) (name : Str) (line : Nat)
     (a : Option Arg) (st : St) (hs : StOk q st) (hfs : FSOk q ctx.fs)
-    (hemit : ∀ rc, Duckling.runCompileLocal ctx cl name line a st = .ok rc → ∀ l ∈ rc.out, P l) :
+    (hemit : (hasHook cl "run_compile" && cl.cname == "Run") = false → (hasHook cl "run_compile" && cl.cname == "Start") = false →
+      ∀ rc, Duckling.runCompileLocal ctx cl name line a st = .ok rc → ∀ l ∈ rc.out, P l) :
     HG q P (Duckling.runCompile c ctx cl name line a st) := by
   unfold Duckling.runCompile
   split
   · split
     · hg_triv
     · exact HG.runRun hc _ _ _ _ hs hfs
-  · split
+  · rename_i hnr
+    split
     · split
       · hg_triv
       · exact HG.runStart hc _ _ _ _ _ hs hfs
-    · exact HG.runCompileLocal _ _ _ _ _ _ hs hemit
+    · rename_i hns
+      exact HG.runCompileLocal _ _ _ _ _ _ hs (hemit (by simpa using hnr) (by simpa using hns))
 
 theorem HG.multiComp {c : Option ChildFn} (hc : ChildHG q P c) (ctx : Ctx) (cl : ClsDesc) (name : Str) (line : Nat)
     (items : List (Option Arg)) (st : St) (out : List Str) (sig : Sig) (hs : StOk q st) (hfs : FSOk q ctx.fs)
     (hout : ∀ l ∈ out, P l)
-    (hemit : ∀ a ∈ items, ∀ st2 rc, Duckling.runCompileLocal ctx cl name line a st2 = .ok rc → ∀ l ∈ rc.out, P l) :
+    (hemit : (hasHook cl "run_compile" && cl.cname == "Run") = false → (hasHook cl "run_compile" && cl.cname == "Start") = false →
+      ∀ a ∈ items, ∀ st2 rc, Duckling.runCompileLocal ctx cl name line a st2 = .ok rc → ∀ l ∈ rc.out, P l) :
     HG q P (Duckling.multiComp c ctx cl name line items st out sig) := by
   induction items generalizing st out sig with
   | nil => exact HG.okSt _ _ rfl hs hout
   | cons a rest ih =>
     unfold Duckling.multiComp
-    apply HG.bind (HG.runCompile hc _ _ _ _ _ _ hs hfs (hemit a List.mem_cons_self st))
+    apply HG.bind (HG.runCompile hc _ _ _ _ _ _ hs hfs (fun h1 h2 => hemit h1 h2 a List.mem_cons_self st))
     intro r _ hrc hro
     apply ih _ _ _ hrc
     · intro l hl
       rcases List.mem_append.mp hl with h | h
       · exact hout l h
       · exact hro l h
-    · intro a' ha'; exact hemit a' (List.mem_cons_of_mem _ ha')
+    · intro h1 h2 a' ha'; exact hemit h1 h2 a' (List.mem_cons_of_mem _ ha')
 
 end Duckling
 
 namespace Duckling
 
-variable {q : Str → Bool} {P : Str → Prop} {α β : Type} [Carries α] [Carries β]
+variable {q : Str → Bool → Bool} {P : Str → Prop} {α β : Type} [Carries α] [Carries β]
 
 theorem HG.evaluateArgs (ctx : Ctx) (line : Nat) (st : St) (b : Bool) (args : List Arg) :
     HG q P (Duckling.evaluateArgs ctx line st b args) := by
@@ -541,14 +558,15 @@ theorem HG.simplePre (ctx : Ctx) (c : ClsDesc) (word : Str) (line : Nat) (arg : 
     successful `simplePre` hands over) -/
 theorem HG.compileSimple {c : Option ChildFn} (hc : ChildHG q P c) (ctx : Ctx) (cl : ClsDesc) (word : Str) (line : Nat)
     (arg : Option Str) (block : Option (List Node)) (st : St) (hs : StOk q st) (hfs : FSOk q ctx.fs)
-    (hemit : ∀ name items st', Duckling.simplePre ctx cl word line arg block st = .ok (name, items, st') →
+    (hemit : (hasHook cl "run_compile" && cl.cname == "Run") = false → (hasHook cl "run_compile" && cl.cname == "Start") = false →
+      ∀ name items st', Duckling.simplePre ctx cl word line arg block st = .ok (name, items, st') →
       ∀ a ∈ items, ∀ st2 rc, Duckling.runCompileLocal ctx cl name line a st2 = .ok rc → ∀ l ∈ rc.out, P l) :
     HG q P (Duckling.compileSimple c ctx cl word line arg block st) := by
   unfold Duckling.compileSimple
   apply HG.bind (HG.simplePre _ _ _ _ _ _ _ hs)
   intro p hp hpc _
   obtain ⟨name, items, st'⟩ := p
-  exact HG.multiComp hc _ _ _ _ _ _ _ _ hpc hfs (by intro l hl; cases hl) (hemit name items st' hp)
+  exact HG.multiComp hc _ _ _ _ _ _ _ _ hpc hfs (by intro l hl; cases hl) (fun h1 h2 => hemit h1 h2 name items st' hp)
 
 theorem HG.tokenizeCount (ctx : Ctx) (pos : Pos) (st : St) (s : Str) : HG q P (Duckling.tokenizeCount ctx pos st s) := by
   unfold Duckling.tokenizeCount
@@ -570,7 +588,7 @@ theorem HG.bindCounter (ctx : Ctx) (pos : Pos) (st : St) (var : Option Str) (n :
 
 theorem HG.repeatLoop {c : Option ChildFn} (hc : ChildHG q P c) (ctx : Ctx) (pos : Pos) (var : Option Str) (ce : Str)
     (body : List Node) (budget count : Nat) (st : St) (out : List Str) (hs : StOk q st) (hfs : FSOk q ctx.fs)
-    (hbody : allLinesL q body = true) (hout : ∀ l ∈ out, P l) :
+    (hbody : allCmdsL q body = true) (hout : ∀ l ∈ out, P l) :
     HG q P (Duckling.repeatLoop c ctx pos var ce body budget count st out) := by
   induction budget generalizing count st out with
   | zero => exact HG.okSt _ _ rfl hs hout
@@ -601,7 +619,7 @@ theorem HG.repeatLoop {c : Option ChildFn} (hc : ChildHG q P c) (ctx : Ctx) (pos
 
 theorem HG.whileLoop {c : Option ChildFn} (hc : ChildHG q P c) (ctx : Ctx) (pos : Pos) (var : Option Str) (cond : Str)
     (body : List Node) (budget count : Nat) (st : St) (out : List Str) (hs : StOk q st) (hfs : FSOk q ctx.fs)
-    (hbody : allLinesL q body = true) (hout : ∀ l ∈ out, P l) :
+    (hbody : allCmdsL q body = true) (hout : ∀ l ∈ out, P l) :
     HG q P (Duckling.whileLoop c ctx pos var cond body budget count st out) := by
   induction budget generalizing count st out with
   | zero => exact HG.raise _ _ _ _
@@ -634,7 +652,7 @@ end Duckling
 
 namespace Duckling
 
-variable {q : Str → Bool} {P : Str → Prop} {α β : Type} [Carries α] [Carries β]
+variable {q : Str → Bool → Bool} {P : Str → Prop} {α β : Type} [Carries α] [Carries β]
 
 theorem HG.ifCond (ctx : Ctx) (pos : Pos) (name : Str) (arg : Option Str) (st : St) : HG q P (Duckling.ifCond ctx pos name arg st) := by
   unfold Duckling.ifCond
@@ -643,7 +661,7 @@ theorem HG.ifCond (ctx : Ctx) (pos : Pos) (name : Str) (arg : Option Str) (st : 
   · exact HG.okPlain _ rfl rfl
 
 theorem ifDecide_codes (name : Str) (st : St) (cond : Bool) (hs : StOk q st) :
-    ∀ c ∈ Carries.codes (ifDecide name st cond), allLinesL q c = true := by
+    ∀ c ∈ Carries.codes (ifDecide name st cond), allCmdsL q c = true := by
   unfold ifDecide
   simp only []
   repeat' split
@@ -671,7 +689,7 @@ theorem HG.ifPre (ctx : Ctx) (pos : Pos) (word : Str) (arg : Option Str) (st : S
       exact HG.okOf _ (ifDecide_codes _ _ _ hs.withFlag) (by rw [ifDecide_outs]; intro l hl; cases hl)
 
 theorem HG.funcPre (ctx : Ctx) (pos : Pos) (arg : Option Str) (block : List Node) (st : St) (hs : StOk q st)
-    (hblock : allLinesL q block = true) : HG q P (Duckling.funcPre ctx pos arg block st) := by
+    (hblock : allCmdsL q block = true) : HG q P (Duckling.funcPre ctx pos arg block st) := by
   unfold Duckling.funcPre
   simp only []
   repeat' split
@@ -696,7 +714,7 @@ theorem HG.repeatPre (ctx : Ctx) (pos : Pos) (arg : Option Str) (hb : Bool) (st 
     | exact HG.okOf _ hs (fun _ _ => trivial)
 
 theorem HG.blockPre (ctx : Ctx) (c : ClsDesc) (word : Str) (line : Nat) (arg : Option Str) (block : List Node) (hb : Bool) (st : St)
-    (hs : StOk q st) (hblock : allLinesL q block = true) :
+    (hs : StOk q st) (hblock : allCmdsL q block = true) :
     HG q (fun _ => True) (Duckling.blockPre ctx c word line arg block hb st) := by
   unfold Duckling.blockPre
   simp only []
@@ -710,8 +728,8 @@ theorem HG.blockPre (ctx : Ctx) (c : ClsDesc) (word : Str) (line : Nat) (arg : O
     | exact HG.okOf _ hs (fun _ _ => trivial)
 
 theorem HG.runBlockAct {c : Option ChildFn} (hc : ChildHG q P c) (ctx : Ctx) (pos : Pos) (block : List Node) (act : BlockAct)
-    (hfs : FSOk q ctx.fs) (hblock : allLinesL q block = true)
-    (hact : ∀ c ∈ Carries.codes act, allLinesL q c = true) (hout : ∀ l ∈ Carries.outs act, P l) :
+    (hfs : FSOk q ctx.fs) (hblock : allCmdsL q block = true)
+    (hact : ∀ c ∈ Carries.codes act, allCmdsL q c = true) (hout : ∀ l ∈ Carries.outs act, P l) :
     HG q P (Duckling.runBlockAct c ctx pos block act) := by
   cases act with
   | done o => exact HG.okOf _ hact hout
@@ -726,7 +744,7 @@ theorem HG.runBlockAct {c : Option ChildFn} (hc : ChildHG q P c) (ctx : Ctx) (po
 
 theorem HG.compileBlock {c : Option ChildFn} (hc : ChildHG q P c) (ctx : Ctx) (cl : ClsDesc) (word : Str) (line : Nat)
     (arg : Option Str) (block : List Node) (hb : Bool) (st : St) (hs : StOk q st) (hfs : FSOk q ctx.fs)
-    (hblock : allLinesL q block = true)
+    (hblock : allCmdsL q block = true)
     (hdone : ∀ o, Duckling.blockPre ctx cl word line arg block hb st = .ok (.done o) → ∀ l ∈ o.out, P l) :
     HG q P (Duckling.compileBlock c ctx cl word line arg block hb st) := by
   unfold Duckling.compileBlock
@@ -744,24 +762,25 @@ theorem HG.compileBlock {c : Option ChildFn} (hc : ChildHG q P c) (ctx : Ctx) (c
 
 /-- what the instance has to provide: `q` excludes blank lines; the lines a simple command emits itself and the lines a
     block command emits without running a body satisfy `P` -/
-structure HSpec (q : Str → Bool) (P : Str → Prop) : Prop where
-  nonblank : ∀ s, q s = true → splitWs1 s ≠ none
+structure HSpec (q : Str → Bool → Bool) (P : Str → Prop) : Prop where
+  nonblank : ∀ s hb, q s hb = true → splitWs1 s ≠ none
   emit : ∀ (ctx : Ctx) (content word : Str) (arg : Option Str) (block : Option (List Node)) (cl : ClsDesc),
-      q content = true → splitWs1 content = some (word, arg) →
+      q content (hasBlockOf block) = true → splitWs1 content = some (word, arg) →
       ((dispatch word (hasBlockOf block) = some cl ∧ cl.isBlock = false) ∨
        (dispatch word (hasBlockOf block) = none ∧ cl = Generated.generic)) →
+      (hasHook cl "run_compile" && cl.cname == "Run") = false → (hasHook cl "run_compile" && cl.cname == "Start") = false →
       ∀ line st name items st', simplePre ctx cl word line arg block st = .ok (name, items, st') →
       ∀ a ∈ items, ∀ st2 rc, runCompileLocal ctx cl name line a st2 = .ok rc → ∀ l ∈ rc.out, P l
   blockDone : ∀ (ctx : Ctx) (content word : Str) (arg : Option Str) (block : Option (List Node)) (cl : ClsDesc),
-      q content = true → splitWs1 content = some (word, arg) → dispatch word (hasBlockOf block) = some cl → cl.isBlock = true →
+      q content (hasBlockOf block) = true → splitWs1 content = some (word, arg) → dispatch word (hasBlockOf block) = some cl → cl.isBlock = true →
       ∀ line st o, blockPre ctx cl word line arg (block.getD []) (hasBlockOf block) st = .ok (.done o) → ∀ l ∈ o.out, P l
 
 theorem HG.stepCmd (S : HSpec q P) {c : Option ChildFn} (hc : ChildHG q P c) (ctx : Ctx) (l : PreLine) (block : Option (List Node))
-    (st : St) (hs : StOk q st) (hfs : FSOk q ctx.fs) (hq : q l.content = true)
-    (hblock : allLinesL q (block.getD []) = true) : HG q P (Duckling.stepCmd c ctx l block st) := by
+    (st : St) (hs : StOk q st) (hfs : FSOk q ctx.fs) (hq : q l.content (hasBlockOf block) = true)
+    (hblock : allCmdsL q (block.getD []) = true) : HG q P (Duckling.stepCmd c ctx l block st) := by
   unfold Duckling.stepCmd
   split
-  · rename_i hsplit; exact absurd hsplit (S.nonblank _ hq)
+  · rename_i hsplit; exact absurd hsplit (S.nonblank _ _ hq)
   · rename_i word arg hsplit
     simp only []
     split
@@ -772,40 +791,41 @@ theorem HG.stepCmd (S : HSpec q P) {c : Option ChildFn} (hc : ChildHG q P c) (ct
       · rename_i hb
         have hb' : cl.isBlock = false := by simpa using hb
         refine HG.compileSimple hc _ _ _ _ _ _ _ hs hfs ?_
-        intro name items st' hpre
-        exact S.emit ctx _ _ _ block cl hq hsplit (Or.inl ⟨hd, hb'⟩) _ _ name items st' hpre
+        intro h1 h2 name items st' hpre
+        exact S.emit ctx _ _ _ block cl hq hsplit (Or.inl ⟨hd, hb'⟩) h1 h2 _ _ name items st' hpre
     · rename_i hd
       have hst : StOk q (if ctx.opts.suppress = true then st else Duckling.addWarn st ⟨.notExist l.num, some (ctx.trace ⟨l.num, none⟩)⟩) := by
         split
         · exact hs
         · exact hs.addWarn _
       refine HG.compileSimple hc _ _ _ _ _ _ _ hst hfs ?_
-      intro name items st' hpre
-      exact S.emit ctx _ _ _ block Generated.generic hq hsplit (Or.inr ⟨hd, rfl⟩) _ _ name items st' hpre
+      intro h1 h2 name items st' hpre
+      exact S.emit ctx _ _ _ block Generated.generic hq hsplit (Or.inr ⟨hd, rfl⟩) h1 h2 _ _ name items st' hpre
 
-theorem allLinesL_nextBlock (rest : List Node) (h : allLinesL q rest = true) : allLinesL q ((nextBlock rest).getD []) = true := by
+theorem allCmdsL_nextBlock (rest : List Node) (h : allCmdsL q rest = true) : allCmdsL q ((nextBlock rest).getD []) = true := by
   cases rest with
   | nil => simp [nextBlock]
   | cons n rest' =>
     cases n with
     | line l => simp [nextBlock]
     | block b =>
-      simp only [allLinesL_cons, allLines_block, Bool.and_eq_true] at h
+      simp only [allCmdsL_block, Bool.and_eq_true] at h
       simpa [nextBlock] using h.1
 
 theorem HG.runNodes (S : HSpec q P) {c : Option ChildFn} (hc : ChildHG q P c) (ctx : Ctx) (nodes : List Node) (st : St)
-    (out : List Str) (hs : StOk q st) (hfs : FSOk q ctx.fs) (hnodes : allLinesL q nodes = true) (hout : ∀ l ∈ out, P l) :
+    (out : List Str) (hs : StOk q st) (hfs : FSOk q ctx.fs) (hnodes : allCmdsL q nodes = true) (hout : ∀ l ∈ out, P l) :
     HG q P (Duckling.runNodes c ctx nodes st out) := by
   induction nodes generalizing st out with
   | nil => exact HG.okSt _ _ rfl hs hout
   | cons n rest ih =>
-    simp only [allLinesL_cons, Bool.and_eq_true] at hnodes
     cases n with
-    | block b => unfold Duckling.runNodes; exact ih _ _ hs hnodes.2 hout
+    | block b =>
+      simp only [allCmdsL_block, Bool.and_eq_true] at hnodes
+      unfold Duckling.runNodes; exact ih _ _ hs hnodes.2 hout
     | line l =>
+      simp only [allCmdsL_line, Bool.and_eq_true] at hnodes
       unfold Duckling.runNodes
-      have hq : q l.content = true := by simpa using hnodes.1
-      apply HG.bind (HG.stepCmd S hc _ _ _ _ hs hfs hq (allLinesL_nextBlock _ hnodes.2))
+      apply HG.bind (HG.stepCmd S hc _ _ _ _ hs hfs hnodes.1 (allCmdsL_nextBlock _ hnodes.2))
       intro r _ hrc hro
       have hout' : ∀ x ∈ out ++ r.out, P x := by
         intro x hx; rcases List.mem_append.mp hx with h | h; exact hout x h; exact hro x h
@@ -824,9 +844,27 @@ theorem exec_childHG (S : HSpec q P) (d : Nat) : ChildHG q P (some (exec d)) := 
 
 /-- the hereditary invariant: any depth, any context, any state -/
 theorem exec_hereditary (S : HSpec q P) (d : Nat) (nodes : List Node) (ctx : Ctx) (st : St)
-    (hnodes : allLinesL q nodes = true) (hs : StOk q st) (hfs : FSOk q ctx.fs) : HG q P (exec d nodes ctx st) := by
+    (hnodes : allCmdsL q nodes = true) (hs : StOk q st) (hfs : FSOk q ctx.fs) : HG q P (exec d nodes ctx st) := by
   cases d with
   | zero => exact HG.runNodes S (c := none) (by intro run h; cases h) _ _ _ _ hs hfs hnodes (by intro l hl; cases hl)
   | succ d => exact HG.runNodes S (exec_childHG S d) _ _ _ _ hs hfs hnodes (by intro l hl; cases hl)
+
+/-- a predicate on the text alone: the two notions agree -/
+theorem allCmdsL_of_text (p : Str → Bool) : ∀ (n : Nat) (nodes : List Node), sizeOf nodes ≤ n →
+    allCmdsL (fun s _ => p s) nodes = allLinesL p nodes := by
+  intro n
+  induction n with
+  | zero => intro nodes h; cases nodes <;> simp at h
+  | succ n ih =>
+    intro nodes h
+    cases nodes with
+    | nil => simp
+    | cons x rest =>
+      have hr : sizeOf rest ≤ n := by simp at h; omega
+      cases x with
+      | line l => simp [ih rest hr]
+      | block b =>
+        have hb : sizeOf b ≤ n := by simp at h; omega
+        simp [ih rest hr, ih b hb]
 
 end Duckling
